@@ -134,7 +134,24 @@ class Engine:
                 ops.append({"op": "remove", "a": rng.choice(universe if rng.random() < 0.4 else names), "rep": rep})
             else:
                 ops.append({"op": "add", "a": rng.choice(universe), "b": rng.choice(universe), "rep": rep})
-        return {"n": n, "ops": ops}
+        plan = {"n": n, "ops": ops}
+        # Observation is part of the history: a query may change the object (path compression, memoisation), so which
+        # names are looked up after each operation, and in which order, is a plan decision.  "full": every signed name
+        # after every operation (sorted, or in a seeded order); "sparse": 0-3 chosen names per operation and one full
+        # pass, in a seeded order, at the end.
+        mode = rng.choice(["full_sorted", "full_shuffled", "sparse", "sparse", "sparse"])
+        if mode != "full_sorted":
+            plan["final_order"] = rng.sample(universe, len(universe))
+            if rng.random() < 0.3:
+                plan["final_order"].sort(key=lambda v: not v.startswith("-"))  # negated names first
+        if mode == "full_shuffled":
+            for op in ops:
+                op["q"] = rng.sample(universe, len(universe))
+        elif mode == "sparse":
+            for op in ops:
+                op["q"] = rng.sample(universe, rng.choice([0, 0, 1, 1, 2, 3]))
+        plan["obs"] = mode
+        return plan
 
     def shrink_candidates(self, plan):
         for cand in ddmin_list(plan["ops"]):
@@ -151,6 +168,15 @@ class Engine:
                     p = _copy.deepcopy(plan)
                     p["ops"][i][k] = op[k][1:]
                     yield p
+            if op.get("q"):
+                for j in range(len(op["q"])):
+                    p = _copy.deepcopy(plan)
+                    del p["ops"][i]["q"][j]
+                    yield p
+        if plan.get("final_order") and plan["final_order"] != sorted(plan["final_order"]):
+            p = _copy.deepcopy(plan)
+            p["final_order"] = sorted(p["final_order"])
+            yield p
 
     def check(self, impl, ref, universe):
         """Returns None or (what, detail)."""
@@ -176,13 +202,22 @@ class Engine:
             if canon_of.setdefault(key, c) != c:
                 return "canonical_signed", "members of one class have different canonical names: %s and %s" % (
                     canon_of[key], c)
+        # exactly one canonical name per non-trivial class (decided without further look-ups: a query may not be
+        # free of side effects), and the names canonical_signed gave are among them
+        got_canon = set(impl.canonical_variables)
         want_canon = set()
         for cl in ref.nontrivial():
-            u = next(iter(cl))
-            want_canon.add(impl.canonical_signed(u)[0])
-        got_canon = set(impl.canonical_variables)
+            inside = sorted(got_canon & set(cl))
+            if len(inside) != 1:
+                return "canonical_variables", "canonical_variables = %s holds %d names of the class %s, expected one" % (
+                    sorted(got_canon), len(inside), sorted(cl))
+            want_canon.add(inside[0])
+            if canon_of.get(id(cl), inside[0]) != inside[0]:
+                return "canonical_signed", "canonical_signed names %s for the class %s, canonical_variables holds %s" % (
+                    canon_of[id(cl)], sorted(cl), inside[0])
         if got_canon != want_canon:
-            return "canonical_variables", "canonical_variables = %s, expected %s" % (sorted(got_canon), sorted(want_canon))
+            return "canonical_variables", "canonical_variables = %s, expected one per non-trivial class: %s" % (
+                sorted(got_canon), sorted(want_canon))
         seen = []
         for c, al in impl:
             seen.append(c)
@@ -248,7 +283,7 @@ class Engine:
             if before or ref.abstract():
                 pairs.add(canon.digest((before, k, op.get("a"), op.get("b"))))
             for ri in range(len(impls)):
-                bad = self.check(impls[ri], refs[ri], universe)
+                bad = self.check(impls[ri], refs[ri], op["q"] if "q" in op else universe)
                 if bad:
                     side = "target" if ri == rep or (k == "copy" and ri == len(impls) - 1) else "other_replica"
                     viol = ("wrong_" + bad[0], "alias_relation:" + k, [k, side],
@@ -257,6 +292,14 @@ class Engine:
             if viol:
                 break
             log.add(opi, rep, k, repr(ref.abstract()))
+        if viol is None and plan.get("final_order"):
+            for ri in range(len(impls)):
+                bad = self.check(impls[ri], refs[ri], plan["final_order"])
+                if bad:
+                    viol = ("wrong_" + bad[0], "alias_relation:final_pass", ["final_pass", "any"],
+                            "full pass after the last operation, replica %d: %s" % (ri, bad[1]))
+                    break
+        counts["obs:" + plan.get("obs", "full_sorted")] = 1
         res = {"property": plan.get("property", "C17"), "verdict": "ok", "plan": plan, "counts": counts,
                "digest": log.digest(), "sim_time_s": 0.0, "steps": len(plan["ops"]),
                "distinct": {"state_op_pairs": sorted(pairs),
